@@ -38,7 +38,7 @@ Proof.
   - destruct (NS ltac:(intros ? X; discriminate X)) as (s1 & o1 & ep & o2 & C & A & E). cbn [core] in C.
     inv C. simpl in A. inv A. eapply SAME; [reflexivity|reflexivity|]. intros a m v [X|[]]; discriminate.
   - destruct (NS ltac:(intros ? X; discriminate X)) as (s1 & o1 & ep & o2 & C & A & E). cbn [core] in C.
-    destruct (cancel_send s sid) as [s2 o3] eqn:Ec. inv C. simpl in A. inv A. rewrite app_nil_r.
+    destruct (cancel_send s sid) as [s2 o3] eqn:Ec. inv C. simpl in A. inv A. rewrite app_nil_r in *.
     apply cancel_send_spec in Ec as (OO & Ph & _). eapply SAME; [exact Ph|reflexivity|apply no_sp_outcomes; auto].
   - destruct (NS ltac:(intros ? X; discriminate X)) as (s1 & o1 & ep & o2 & C & A & E). cbn [core] in C.
     inv C. destruct (looper s1); simpl in A.
@@ -69,14 +69,14 @@ Proof.
   - (* EResult *)
     destruct SP as [Ph|[tid Ph]].
     + destruct (result_ok c cur v) eqn:OK.
-      * destruct (retry_subset _ _ _ _ _ _ _ I Ph OK H) as [D|(cur' & tid & Ph' & In' & _)]; [left; exact D|].
-        right. exists cur'. split; [right; exists tid; exact Ph'|]. split; auto.
-        (* no produce in this step *)
-        unfold step in H. cbn [core] in H. rewrite Ph, OK in H.
+      * unfold step in H. cbn [core] in H. rewrite Ph, OK in H.
         destruct (handle_result c s pls cur v) as [[s1 o1] done] eqn:Eh. pose proof (handle_result_sp _ _ _ _ _ _ _ _ Eh) as N.
         unfold fin_if in H. destruct done; simpl in H.
-        -- unfold finish, finish0 in H. destruct (check_send_batch c _) as [s2 o2]. inv H. simpl in Ph'. discriminate.
-        -- inv H. rewrite app_nil_r. intros a m w X. exfalso; eapply N; eauto.
+        -- left. unfold finish, finish0 in H. destruct (check_send_batch c _) as [s2 o2]. inv H.
+           apply in_or_app; right; left; reflexivity.
+        -- inv H. rewrite app_nil_r. apply handle_result_retry in Eh as (cur' & tid & Ph' & In' & _); auto.
+           right. exists cur'. split; [right; exists tid; exact Ph'|]. split; auto.
+           intros a m w X. exfalso; eapply N; eauto.
       * destruct (NS ltac:(intros ? X; discriminate X)) as (s1 & o1 & ep & o2 & C & A & E). cbn [core] in C.
         rewrite Ph, OK in C. inv C. simpl in A. inv A. eapply SAME; [reflexivity|reflexivity|apply no_sp_nil].
     + destruct (NS ltac:(intros ? X; discriminate X)) as (s1 & o1 & ep & o2 & C & A & E). cbn [core] in C.
